@@ -104,6 +104,17 @@ func main() {
 		fmt.Fprintf(os.Stderr, "generated %d obligations in %.1fs, solved in %.1fs\n", len(all), t1.Sub(t0).Seconds(), time.Since(t1).Seconds())
 	}
 	bad := 0
+	coverOK := map[string]bool{}
+	for _, c := range e.covers {
+		if c.Verdict != "vacuous" {
+			coverOK[c.Name] = true
+		}
+	}
+	for _, c := range e.covers {
+		if coverOK[c.Name] && c.Verdict == "vacuous" {
+			c.Verdict = "covered"
+		}
+	}
 	for _, r := range results {
 		if r.Undecided != "" {
 			fmt.Printf("UNDECIDED %s: %s\n", r.Func, r.Undecided)
